@@ -20,7 +20,7 @@ TECHNIQUE = "SMT (z3 QF_BV) over the Amaranth netlist IR of enumerated condition
 BOUNDS = {"quick": "all 2x2x2 (nonblocking, priority, default) x {2,3} branches x {in transaction, in method} x {distinct callees, shared callee} shapes (64) plus "
                    "8 nested-condition shapes; every valuation of conditions / request / callee readiness",
           "thorough": "same families plus callee-less branches, two conditions in one body, 4 branches (about 300 shapes)"}
-OUTSIDE = ["condition() shapes outside the enumerated family", "branches whose callees take arguments with validate_arguments"]
+OUTSIDE = ["condition() shapes outside the enumerated families (flat family + 'deep' family: condition inside a conditionally called method, nested, with a callee method that has its own condition)", "branches whose callees take arguments with validate_arguments"]
 ASSUMES = ["'admissible' = branch condition holds and every method called in the branch is ready (as in the statement)",
            "the callee methods are always-defined leaf methods with free readiness"]
 
@@ -122,8 +122,126 @@ class D(Elaboratable):
         return m
 
 
-def configs(tier, seed):
+class Deep(D):
+    """condition() inside a method that is called CONDITIONALLY (m.If / enable_call), with a nested condition and,
+    optionally, a further method `y` with its own condition() called from the innermost branch."""
+
+    def elaborate(self, platform):
+        from transactron import TModule, Method, Transaction, def_method
+        from transactron.lib import condition
+
+        cfg = self.cfg
+        m = TModule()
+        keep = Signal(name="_keep_sync")
+        m.d.sync += keep.eq(1)
+        en, c_outer, c_inner, c_y, req = (self.inp(n) for n in ("en", "c_outer", "c_inner", "c_y", "req"))
+        outer, y = Method(name="outer"), Method(name="y")
+        W = {n: self.wit("w_" + n) for n in ("t", "outer", "b0", "c0", "y", "d0")}
+        # every body also calls its own always-ready probe method: "the methods a branch calls execute" is observed on them
+        self.P = {n: Method(name="probe_" + n) for n in W}
+        for n, pm in self.P.items():
+            pw = self.wit("p_" + n)
+
+            @def_method(m, pm)
+            def _():
+                m.d.comb += pw.eq(1)
+
+        @def_method(m, y)
+        def _():
+            m.d.comb += W["y"].eq(1)
+            self.P["y"](m)
+            with condition(m, nonblocking=cfg["nb_y"]) as branch:
+                with branch(c_y):
+                    m.d.comb += W["d0"].eq(1)
+                    self.P["d0"](m)
+
+        @def_method(m, outer)
+        def _():
+            m.d.comb += W["outer"].eq(1)
+            self.P["outer"](m)
+            with condition(m, nonblocking=cfg["nb_outer"]) as branch:
+                with branch(c_outer):
+                    m.d.comb += W["b0"].eq(1)
+                    self.P["b0"](m)
+                    if cfg["levels"] >= 2:
+                        with condition(m, nonblocking=cfg["nb_inner"]) as branch2:
+                            with branch2(c_inner):
+                                m.d.comb += W["c0"].eq(1)
+                                self.P["c0"](m)
+                                if cfg["deep_method"]:
+                                    y(m)
+                    elif cfg["deep_method"]:
+                        y(m)
+
+        target = outer
+        if cfg.get("via"):
+            # the conditional link is one call further up: T --(conditional)--> mid --(unconditional)--> outer
+            mid = Method(name="mid")
+
+            @def_method(m, mid)
+            def _():
+                outer(m)
+
+            target = mid
+        with Transaction(name="T").body(m, ready=req):
+            m.d.comb += W["t"].eq(1)
+            self.P["t"](m)
+            if cfg["call"] == "if":
+                with m.If(en):
+                    target(m)
+            elif cfg["call"] == "enable":
+                target(m, enable_call=en)
+            else:
+                target(m)
+        return m
+
+
+def deep_configs(tier):
     out = []
+    for call, levels, dm in itertools.product(("plain", "if", "enable"), (1, 2), (False, True)):
+        for nbo, nbi, nby in itertools.product((False, True), repeat=3):
+            if tier == "quick" and (nbo, nbi, nby) not in ((True, True, False), (False, False, False), (True, False, True)):
+                continue
+            if levels == 1 and nbi:
+                continue
+            if not dm and nby:
+                continue
+            out.append(dict(deep=True, call=call, levels=levels, deep_method=dm, nb_outer=nbo, nb_inner=nbi, nb_y=nby))
+            if call != "plain" and not dm:
+                out.append(dict(deep=True, call=call, levels=levels, deep_method=dm, nb_outer=nbo, nb_inner=nbi, nb_y=nby, via=True))
+    return out
+
+
+def run_deep(cfg, ctx):
+    b = Built(lambda: Deep(cfg), trace_functions=False)
+    u = Unroll(b)
+    o = u.cycle()
+    ctx.frames += 1
+    B = lambda n: o.sig("w_" + n) == 1
+    pairs = [("outer", "t"), ("b0", "outer")]
+    if cfg["levels"] >= 2:
+        pairs.append(("c0", "b0"))
+    if cfg["deep_method"]:
+        pairs += [("y", "c0" if cfg["levels"] >= 2 else "b0"), ("d0", "y")]
+    ctx.witness("deep: the innermost body can run", [B(pairs[-1][0])])
+    if cfg["call"] != "plain":
+        ctx.witness("deep: the caller runs while the call is disabled", [B("t"), o.sig("en") == 0])
+    P = lambda n: o.sig("p_" + n) == 1
+    for child, parent in pairs:
+        ctx.prove(f"deep: '{child}' (branch / method body) runs only if its enclosing body '{parent}' runs", [], z3.Implies(B(child), B(parent)), u)
+        ctx.prove(f"deep: the method called in '{child}' executes only if the enclosing body '{parent}' runs", [], z3.Implies(P(child), B(parent)), u)
+    for n in {x for pr in pairs for x in pr}:
+        ctx.prove(f"deep: the method called unconditionally in '{n}' executes exactly when '{n}' runs", [], P(n) == B(n), u)
+    conds = {"b0": "c_outer", "c0": "c_inner", "d0": "c_y"}
+    for child, c in conds.items():
+        if any(child == p[0] for p in pairs):
+            ctx.prove(f"deep: branch '{child}' runs only if its condition holds", [], z3.Implies(B(child), o.sig(c) == 1), u)
+    if cfg["call"] != "plain":
+        ctx.prove("deep: the conditionally called method runs only when the call is enabled", [], z3.Implies(B("outer"), o.sig("en") == 1), u)
+
+
+def configs(tier, seed):
+    out = deep_configs(tier)
     for nbk, pr, df, nbr, im, sh in itertools.product((False, True), (False, True), (False, True), (2, 3), (False, True), (False, True)):
         out.append(dict(nonblocking=nbk, priority=pr, default=df, branches=nbr, in_method=im, shared=sh))
     for nbk, pr, inb in itertools.product((False, True), (False, True), (False, True)):
@@ -182,6 +300,8 @@ def obligations(ctx, u, o, tag, wb, ws, conds, callees, rdy, nonblocking, priori
 
 
 def run(cfg, ctx):
+    if cfg.get("deep"):
+        return run_deep(cfg, ctx)
     b = Built(lambda: D(cfg), trace_functions=(ctx.index == 0))
     ctx.functions = b.functions
     d = b.h
@@ -233,3 +353,10 @@ def _canary_default_cond():
 
 
 CANARIES = [("condition(): default branch not gated by the other conditions", _canary_default_cond)]
+
+
+def classify(v):
+    c = v.get("cfg", {})
+    if c.get("deep") and c.get("deep_method") and c.get("levels") == 2 and c.get("call") in ("if", "enable") and "'d0'" in v.get("name", ""):
+        return "callee-condition-under-nested-branch-of-conditionally-called-method"
+    return None
